@@ -373,3 +373,42 @@ def bundled_examples():
         inner = fn[:-4]
         out.append((fn, z.read(inner).decode('utf-8', errors='replace')))
     return out
+
+
+# ----------------------------------------------------------------------------- offered to C15 / C16
+def write_is_pure(nl, tmp):
+    """C16 for EBLIF: composing twice gives the same text and leaves every dumped field of the netlist
+    (instances with data, ports, cables, pin sets, libraries, top, comments) as it was.
+    Returns a list of problems (empty = pure)."""
+    before = dump_netlist(nl)
+    t1, e1 = compose_text(nl, tmp, 'pure1.eblif')
+    mid = dump_netlist(nl)
+    t2, e2 = compose_text(nl, tmp, 'pure2.eblif')
+    after = dump_netlist(nl)
+    bad = []
+    if e1 or e2:
+        if e1 != e2:
+            bad.append('first write %s, second write %s' % (e1 or 'ok', e2 or 'ok'))
+        return bad
+    d = first_difference(before, mid)
+    if d:
+        bad.append('writing changed the netlist: %r' % (d,))
+    d = first_difference(mid, after)
+    if d:
+        bad.append('the second write changed the netlist: %r' % (d,))
+    if t1 != t2:
+        bad.append('the second write produced a different text')
+    return bad
+
+
+def parse_outcome(text, tmp):
+    """C15 for EBLIF: the outcome class of reading one (possibly damaged) text:
+    ('returned-wf' | 'returned-non-wf' | 'raised', detail).  Uses eblif_oracles.wf_check."""
+    import eblif_oracles
+    nl, exc = parse_text(text, tmp, 'outcome.eblif')
+    if nl is None:
+        return 'raised', exc
+    bad = eblif_oracles.wf_check(nl)
+    if bad:
+        return 'returned-non-wf', sorted(set(k for k, _ in bad))
+    return 'returned-wf', None
